@@ -53,49 +53,49 @@ def digest_ties(prop):
 PLATFORM_NOTE = 'pow / sin / cos / tan / clock are platform parameters of the model (compared on exactly representable cases only)'
 
 PROPS = {
-    'C01': {'ties': ['tie_ladder', 'tie_docLadder', 'tie_readmeLadder', 'tie_tokenTypes'],
+    'C01': {'scale': True, 'ties': ['tie_ladder', 'tie_docLadder', 'tie_readmeLadder', 'tie_tokenTypes'],
             'digests': pa(PARSER_LADDER + PARSER_PRIM + ['Parser.IfStatement', 'Parser.statement']), 'digest_groups': ['parserDigests'],
             'campaign': F.c01,
             'partial': ['"adding parentheses never changes what a program prints" is proved at tree level (Grouping is transparent to the evaluator) and tested end to end']},
-    'C02': {'ties': ['tie_tokenTypes'], 'digests': it(*OPS) + ev('Binary', 'Unary'), 'campaign': E.c02,
+    'C02': {'ties': ['tie_tokenTypes'], 'digests': it(*OPS) + ev('Binary', 'Unary') + it('toNumber', 'toInt64') + ['utilsDigests:ConvertBanglaDigitsToASCII'], 'campaign': E.c02,
             'partial': ['IEEE-754 exactness rests on the definitional F64 model tied to the host by correspondence', PLATFORM_NOTE]},
-    'C03': {'ties': [], 'digests': en(ENV_ALL) + ev('BlockStmt', 'ForStmt', 'VarStmt', 'VarListStmt', 'AssignmentStmt', 'Identifier', 'FunctionStmt') +
+    'C03': {'scale': True, 'ties': [], 'digests': en(ENV_ALL) + ev('BlockStmt', 'ForStmt', 'VarStmt', 'VarListStmt', 'AssignmentStmt', 'Identifier', 'FunctionStmt') +
             it('Function.Call', 'Interpreter.Interpret', 'NewInterpreter'), 'digest_groups': ['environmentDigests'], 'campaign': E.c03},
-    'C04': {'ties': [], 'digests': it('Function.Call', 'Function.Arity', 'NewFunction') + en(ENV_ALL) +
+    'C04': {'scale': True, 'ties': [], 'digests': it('Function.Call', 'Function.Arity', 'NewFunction') + en(ENV_ALL) +
             ev('Call', 'FunctionStmt', 'Return', 'While', 'ForStmt', 'IfStmt', 'BlockStmt'), 'campaign': E.c04},
-    'C05': {'ties': [], 'digests': ev('IfStmt', 'While', 'ForStmt', 'BreakStmt', 'ContinueStmt', 'BlockStmt') + it('Interpreter.Interpret', 'isTruthy') + pa(['Parser.forStatement']),
+    'C05': {'scale': True, 'ties': [], 'digests': ev('IfStmt', 'While', 'ForStmt', 'BreakStmt', 'ContinueStmt', 'BlockStmt') + it('Interpreter.Interpret', 'isTruthy') + pa(['Parser.forStatement']),
             'campaign': E.c05},
     'C06': {'ties': ['tie_exits'], 'digests': ['evalCases:' + n for n in ALL_EVAL] + it('Function.Call', 'Interpreter.Interpret', 'evaluateBinary', 'evaluateUnary') +
             ['utilsDigests:RuntimeError', 'mainDigests:runFile', 'mainDigests:run'] + en(['Environment.Assign']), 'digest_groups': ['evalCases'], 'campaign': E.c06},
-    'C07': {'ties': ['tie_panicSites'], 'digests': it(*OPS) + nat(*NATIVES) + it('Function.Call', 'sortedKeys', 'stringify') + ['evalCases:' + n for n in ALL_EVAL],
+    'C07': {'scale': True, 'ties': ['tie_panicSites'], 'digests': it(*OPS) + nat(*NATIVES) + it('Function.Call', 'sortedKeys', 'stringify') + ['evalCases:' + n for n in ALL_EVAL],
             'digest_groups': ['interpreterDigests', 'evalCases'], 'campaign': E.c07,
             'partial': ['goroutine stack exhaustion and memory exhaustion are runtime behaviours the model cannot exhibit (known findings)']},
-    'C08': {'ties': ['tie_reserved', 'tie_maxParams', 'tie_tokenTypes', 'tie_keywords', 'tie_singleOps', 'tie_twoOps', 'tie_otherCases', 'tie_ladder'],
+    'C08': {'scale': True, 'ties': ['tie_reserved', 'tie_maxParams', 'tie_tokenTypes', 'tie_keywords', 'tie_singleOps', 'tie_twoOps', 'tie_otherCases', 'tie_ladder'],
             'digests': pa(PARSER_LADDER + PARSER_STMT + PARSER_PRIM) + lx(LEXER_ALL) + ['mainDigests:run', 'utilsDigests:GlobalError', 'utilsDigests:GlobalErrorToken', 'utilsDigests:report'],
             'digest_groups': ['parserDigests', 'lexerDigests'], 'campaign': F.c08,
             'partial': ['"the first diagnostic is at the first non-viable token": prefix determinism is by construction of the model; viability of the preceding prefix is checked by enumeration only']},
-    'C09': {'ties': ['tie_keywords', 'tie_singleOps', 'tie_twoOps', 'tie_blanks', 'tie_otherCases', 'tie_isAlpha', 'tie_tokenTypes', 'tie_digitRanges'],
+    'C09': {'scale': True, 'ties': ['tie_keywords', 'tie_singleOps', 'tie_twoOps', 'tie_blanks', 'tie_otherCases', 'tie_isAlpha', 'tie_tokenTypes', 'tie_digitRanges'],
             'digests': lx(LEXER_ALL) + ['utilsDigests:GlobalError', 'utilsDigests:report'], 'digest_groups': ['lexerDigests'], 'campaign': F.c09,
             'partial': ['unicode.IsLetter / IsMark are a parameter of the theorems; the driver uses the range tables extracted from the Go toolchain']},
     'C10': {'ties': ['tie_digitRanges', 'tie_digitMap'], 'digests': lx(['Scanner.number', 'isDigit', 'Scanner.peekNext', 'Scanner.AddToken']) + ['utilsDigests:ConvertBanglaDigitsToASCII'] + it('toNumber', 'toInt64'),
             'campaign': F.c10, 'partial': ['"nearest double" rests on the definitional F64.ofRat tied to strconv.ParseFloat by correspondence']},
-    'C11': {'ties': ['tie_natives', 'tie_arities'], 'digests': nat('Len', 'Append', 'Remove') + ev('ArrayLiteral', 'ArrayAccess', 'ArrayAssignment') + it('toInt64', 'isEqual'), 'campaign': E.c11},
-    'C12': {'ties': ['tie_natives', 'tie_arities'], 'digests': nat('Delete', 'Keys', 'Values') + it('sortedKeys') + ev('ObjectLiteral', 'PropertyAccess', 'PropertyAssignment') + pa(['Parser.objectLiteral']), 'campaign': E.c12},
-    'C13': {'ties': ['tie_rangeMap', 'tie_nondet'], 'digests': it('sortedKeys', 'stringify') + nat('Keys', 'Values') + ev('ObjectLiteral') + pa(['Parser.objectLiteral']), 'campaign': E.c13,
+    'C11': {'scale': True, 'ties': ['tie_natives', 'tie_arities'], 'digests': nat('Len', 'Append', 'Remove') + ev('ArrayLiteral', 'ArrayAccess', 'ArrayAssignment') + it('toInt64', 'isEqual'), 'campaign': E.c11},
+    'C12': {'scale': True, 'ties': ['tie_natives', 'tie_arities'], 'digests': nat('Delete', 'Keys', 'Values') + it('sortedKeys') + ev('ObjectLiteral', 'PropertyAccess', 'PropertyAssignment') + pa(['Parser.objectLiteral']), 'campaign': E.c12},
+    'C13': {'scale': True, 'ties': ['tie_rangeMap', 'tie_nondet'], 'digests': it('sortedKeys', 'stringify') + nat('Keys', 'Values') + ev('ObjectLiteral') + pa(['Parser.objectLiteral']), 'campaign': E.c13,
             'partial': ['that the Go runtime randomises only map iteration (and fmt sorts map keys) is trusted knowledge of the runtime']},
-    'C14': {'ties': [], 'digests': ev('Binary', 'Unary', 'Logical', 'Call', 'ArrayLiteral', 'ObjectLiteral', 'ArrayAccess', 'ArrayAssignment', 'PropertyAssignment', 'PropertyAccess', 'AssignmentStmt', 'Grouping', 'IfStmt', 'While', 'ForStmt') + it('isTruthy'),
+    'C14': {'scale': True, 'ties': [], 'digests': ev('Binary', 'Unary', 'Logical', 'Call', 'ArrayLiteral', 'ObjectLiteral', 'ArrayAccess', 'ArrayAssignment', 'PropertyAssignment', 'PropertyAccess', 'AssignmentStmt', 'Grouping', 'IfStmt', 'While', 'ForStmt') + it('isTruthy'),
             'campaign': E.c14},
-    'C15': {'ties': [], 'digests': ev('PrintStatement', 'ExpressionStatement') + it('stringify', 'stringifyOperand', 'handleAddition', 'Function.String'), 'campaign': E.c15,
+    'C15': {'scale': True, 'ties': [], 'digests': ev('PrintStatement', 'ExpressionStatement') + it('stringify', 'stringifyOperand', 'handleAddition', 'Function.String'), 'campaign': E.c15,
             'partial': ['NFC is x/text\'s (tables extracted, algorithm modelled); shortest-digit minimality is strconv\'s (tied by correspondence)']},
     'C16': {'ties': [], 'digests': lx(['Scanner.stringLiteral', 'Scanner.AddToken', 'Scanner.number']) + it(*OPS) + it('stringify', 'sortedKeys') + nat(*NATIVES) +
             ev('Literal', 'ArrayAccess', 'ArrayAssignment', 'PropertyAccess', 'PropertyAssignment', 'Binary', 'Unary', 'Logical', 'IfStmt', 'While', 'ForStmt', 'Call', 'PrintStatement',
                'ExpressionStatement', 'ArrayLiteral', 'ObjectLiteral', 'VarStmt', 'AssignmentStmt', 'Return', 'Grouping'),
             'digest_groups': ['interpreterDigests', 'evalCases'], 'campaign': E.c16},
-    'C17': {'ties': ['tie_natives', 'tie_arities'], 'digests': nat(*NATIVES) + it('NewInterpreter', 'toNumber') + ev('Call'), 'campaign': E.c17,
+    'C17': {'scale': True, 'ties': ['tie_natives', 'tie_arities'], 'digests': nat(*NATIVES) + it('NewInterpreter', 'toNumber') + ev('Call'), 'campaign': E.c17,
             'partial': [PLATFORM_NOTE + '; accuracy of the platform math library is neither modelled nor claimed', 'clock is checked against the wall clock only']},
     'C18': {'ties': ['tie_keywords', 'tie_twoOps', 'tie_digitMap', 'tie_digitRanges', 'tie_blanks', 'tie_otherCases'], 'digests': lx(LEXER_ALL) + en(ENV_ALL) + ev('Grouping') + pa(PARSER_LADDER + ['Parser.varDeclaration']),
             'campaign': E.c18, 'partial': ['renaming and dead-code invariance are decided by correspondence and metamorphic runs; the Lean theorems cover trivia insertion after any token (whole texts), digit script, synonyms and grouping']},
-    'C19': {'ties': ['tie_exits'], 'digests': ['mainDigests:main', 'mainDigests:run', 'mainDigests:runFile', 'mainDigests:runPrompt', 'utilsDigests:report', 'utilsDigests:RuntimeError', 'utilsDigests:GlobalError', 'utilsDigests:GlobalErrorToken'] + nat('Input'),
+    'C19': {'scale': True, 'ties': ['tie_exits'], 'digests': ['mainDigests:main', 'mainDigests:run', 'mainDigests:runFile', 'mainDigests:runPrompt', 'utilsDigests:report', 'utilsDigests:RuntimeError', 'utilsDigests:GlobalError', 'utilsDigests:GlobalErrorToken'] + nat('Input'),
             'digest_groups': ['mainDigests', 'utilsDigests'], 'campaign': C.c19, 'partial': ['OS file errors and pipe buffering are runtime behaviours; the unreadable-file message is compared up to the OS part']},
     'C20': {'ties': [], 'digests': ['mainDigests:runPrompt', 'mainDigests:run', 'mainDigests:main'] + ev('ExpressionStatement') + it('NewInterpreter', 'Interpreter.Interpret'), 'campaign': C.c20,
             'partial': ['`ইনপুট` inside a REPL session shares buffered stdin with the prompt reader (runtime behaviour, not modelled)']},
